@@ -482,7 +482,7 @@ def translate_table(repo):
         path = os.path.join(repo, rel)
         CURFILE[0] = path
         out.append(T.translate(ast.parse(open(path).read()), skel, prefix, w))
-    head = HEADER % os.path.join(repo, "scheduler/threading/scheduler.py") + "From Gen Require Import GenStr.\n\n" + \
+    head = HEADER % os.path.join(repo, "scheduler/threading/scheduler.py") + "From Sv Require Import Table.\nFrom Gen Require Import GenStr.\n\n" + \
         "Definition row_nth (row : list pystr) (i : nat) : pystr := nth i row [].\n" + \
         "Definition col_width (cols : list (bool * nat)) (i : nat) : nat := snd (nth i cols (true, O)).\n" + \
         "Definition str_or_empty (s : pystr) : pystr := match s with [] => [] | _ => s end.\n" + \
